@@ -232,6 +232,10 @@ def build():
         bad=[('p', pupil(89, ps=None, shape=(12, 10))), ('p', pupil(89, ps=(DX, 2 * DX), shape=(12, 10)))])
     add('plane.observed-then-rescale', ['C17'], lambda p, scale: _observe_then(p, lambda q: q.rescale(scale)), lambda s: dict(p=pupil(87, seg=True, shape=(12, 10))(s), scale=1.5),
         alts=dict(p=[pupil(85, shape=(12, 10))], scale=[K(2)]), invariant=lambda r: r[2])
+    add('plane.rescale-reassign-rescale', ['C17', 'C10'], lambda p, scale, attr: _reassign_then(p, attr, lambda q: q.rescale(scale)),
+        lambda s: dict(p=pupil(85, shape=(12, 10))(s), scale=1.5, attr='opd'),
+        alts=dict(p=[pupil(87, seg=True, shape=(12, 10))], scale=[K(2), K(0.5)], attr=[K('amplitude'), K('opd-inplace')]),
+        invariant=lambda r: r[2], writes=['p'], norefill=['p'])
     add('plane.copy', ['C17', 'C04'], lambda p: p.copy(), lambda s: dict(p=pupil(83, fit=True)(s)), alts=dict(p=[pupil(82, seg=True)]))
 
     # ------------------------------------------------------------------------------------------------ Zernike (C11, C12)
@@ -401,6 +405,43 @@ def _observe_then(p, f):
     seen = _props_of(q)
     bad = [k for k in ref_seen if k not in seen or not (np.array_equal(seen[k], ref_seen[k]) if isinstance(ref_seen[k], np.ndarray) else seen[k] == ref_seen[k])]
     return q, seen, (f'attributes {bad} of the result differ between a plane whose read-only attributes were looked at before and an untouched twin' if bad else None)
+
+
+def _reassign_then(p, attr, f):
+    """f(p); give one attribute of p a new value through its documented setter (or edit the OPD array in place); f(p) again: the
+    second result is that of f on a twin built afresh with the new attribute value"""
+    import lentil
+    f(p)
+    amp, opd, mask = np.array(p.amplitude, dtype=float, copy=True), np.array(p.opd, dtype=float, copy=True), np.array(p.mask, copy=True)
+    ps = p.pixelscale
+    if attr == 'opd':
+        opd = opd * 0.5 + 3e-8
+        p.opd = opd.copy()
+    elif attr == 'opd-inplace':
+        if isinstance(p.opd, np.ndarray) and p.opd.flags.writeable:
+            p.opd[...] = p.opd * 0.5 + 3e-8
+            opd = np.array(p.opd, copy=True)
+    elif attr == 'amplitude':
+        amp = amp * 0.5
+        p.amplitude = amp.copy()
+    elif attr == 'mask':
+        g = mask if mask.ndim == 2 else mask.sum(axis=0)
+        r, c = np.argwhere(g != 0)[0]
+        if mask.ndim == 2:
+            mask[r, c] = 0
+        else:
+            mask[:, r, c] = 0
+        p.mask = mask.copy()
+    elif attr == 'pixelscale':
+        ps = (2 * DX, 2 * DX)
+        p.pixelscale = 2 * DX
+    q = f(p)
+    twin = lentil.Pupil(amplitude=amp, opd=opd, mask=mask, pixelscale=ps, focal_length=p.focal_length)
+    twin.tilt = list(p.tilt)
+    ref = f(twin)
+    a, b = _props_of(q), _props_of(ref)
+    bad = [k for k in b if k not in a or not (np.array_equal(a[k], b[k]) if isinstance(b[k], np.ndarray) else a[k] == b[k])]
+    return q, a, (f'after p.{attr} was given a new value, attributes {bad} of the second result differ from those of a plane built afresh with that value' if bad else None)
 
 
 def _to_derive_to(a, k):
